@@ -7,7 +7,7 @@ import z3
 from sx import core as S, env as E, npshim
 
 PROPERTY = "C19"
-REGIONS = ["bulk-group", "no-rows", "points-dtype-unsigned", "points-dtype-signed-narrow", "edited-in-place-between-calls", "ndim1", "ndim2", "ndim3", "symbolic-matrix", "concrete-matrix", "satisfied-true", "satisfied-false"]
+REGIONS = ["points-of-library-array-class", "bulk-group", "no-rows", "points-dtype-unsigned", "points-dtype-signed-narrow", "edited-in-place-between-calls", "ndim1", "ndim2", "ndim3", "symbolic-matrix", "concrete-matrix", "satisfied-true", "satisfied-false"]
 BOUNDS = ("rows<=3, columns<=3, points per group<=3, groups<=2; fully symbolic matrix entries, right-hand sides and coordinates with |.|<=20 "
           "for shapes up to 2x2 with <=2 points (products are symbolic x symbolic: QF_NIA, but oracle and code share the same product terms); "
           "larger shapes use concrete matrices over {-2..2} with symbolic b and symbolic points")
@@ -49,6 +49,11 @@ def instantiations(tier, seed):
         for fn in FUNS:
             nd = 1 + (len(pd) + FUNS.index(fn)) % 3
             out.append({"rows": 2, "cols": 2, "ndim": nd, "npts": 1 if nd == 1 else 2, "ngroups": 2 if nd == 3 else 1, "fn": fn, "A": [[1, 1], [-1, -1]], "pdtype": pd})
+    # points handed over as instances of the library's own ndarray subclasses (results of from_list / get_neighbourhood, integer_ndarray(...))
+    for pc in ("integer_ndarray", "boolean_ndarray", "variable_ndarray"):
+        for fn in FUNS:
+            nd = 1 + (len(pc) + FUNS.index(fn)) % 3
+            out.append({"rows": 2, "cols": 3, "ndim": nd, "npts": 1, "ngroups": 2 if nd == 3 else 1, "fn": fn, "A": [[1, 0, 0], [-1, 1, 0]], "pclass": pc})
     # the polyhedron is an ndarray: it may be edited in place between two calls; the second call must describe the edited matrix
     for (r, c) in [(1, 2), (2, 2)]:
         for fn in FUNS:
@@ -98,6 +103,9 @@ def run_inst(spec, run):
                     for k in range(npts):
                         for j in range(c):
                             arr[g, k, j] = pts[g][k][j]
+            if spec.get("pclass"):
+                # the points are one of the library's own array classes (with their auto-generated variables), not a plain numpy array
+                arr = getattr(ns.pnd, spec["pclass"])(arr)
             err = res = None
             try:
                 if spec.get("edit"):
@@ -131,6 +139,8 @@ def run_inst(spec, run):
                 run.region("no-rows")
             if spec.get("bulk"):
                 run.region("bulk-group")
+            if spec.get("pclass"):
+                run.region("points-of-library-array-class")
             if spec.get("pdtype"):
                 run.region("points-dtype-" + ("unsigned" if spec["pdtype"].startswith("u") else "signed-narrow"))
             if spec.get("edit"):
